@@ -284,26 +284,65 @@ fn check_induction(t: &TaskCtx, entries: &[Entry], d: Dir, problems: &[ProblemDa
     }
 }
 
-/// outlines with a definition that violates exactly one acceptance condition
-fn bad_definition(r: &mut Rng, t: &TaskCtx) -> (String, &'static str) {
-    let taken: Vec<&(String, usize)> = t.inputs.iter().chain(t.outputs.iter()).collect();
-    let some_pred = taken.iter().find(|(_, a)| *a == 1).map(|(p, _)| p.clone()).unwrap_or("zzz".into());
-    match r.below(7) {
-        0 => ("definition[d]: forall X (fresh(X) <-> X = Y).".into(), "free-variable"),
-        1 => ("definition[d]: forall X X (fresh(X, X) <-> X = 1).".into(), "repeated-variable"),
-        2 => ("definition[d]: forall X (fresh(X, 1) <-> X = 1).".into(), "non-variable-argument"),
-        3 if !taken.is_empty() => {
-            let (p, a) = taken[r.upto(taken.len())];
-            let vars: Vec<String> = (0..*a).map(|i| format!("X{i}")).collect();
-            if *a == 0 {
-                (format!("definition[d]: {p} <-> 1 = 1."), "malformed-or-taken")
-            } else {
-                (format!("definition[d]: forall {} ({}({}) <-> {} = 1).", vars.join(" "), p, vars.join(", "), vars[0]), "predicate-taken-by-task")
+/// Candidate definitions built from independent features, with at most one defect, and the
+/// monitor's own acceptance rule (written from the statement): `forall L (p(A) <-> B)` with L
+/// distinct variables, A exactly the variables of L, p occurring nowhere in the task nor in an
+/// earlier entry, B closed under L and mentioning only predicates of the task / earlier entries.
+fn definition_candidate(r: &mut Rng, t: &TaskCtx) -> (String, Option<&'static str>) {
+    let mut taken: Vec<(String, usize)> = t.inputs.iter().chain(t.outputs.iter()).cloned().collect();
+    taken.extend(t.left_privates.iter().cloned());
+    taken.extend(t.right_privates.iter().cloned());
+    let unary: Vec<&(String, usize)> = taken.iter().filter(|(_, a)| *a == 1).collect();
+    let binary: Vec<&(String, usize)> = taken.iter().filter(|(_, a)| *a == 2).collect();
+    let body_over = |vars: &[&str], r: &mut Rng| -> String {
+        let mut parts: Vec<String> = Vec::new();
+        for v in vars {
+            match r.below(3) {
+                0 if !unary.is_empty() => parts.push(format!("{}({v})", unary[r.upto(unary.len())].0)),
+                1 if !binary.is_empty() && vars.len() >= 2 => parts.push(format!("{}({}, {})", binary[r.upto(binary.len())].0, vars[0], vars[1])),
+                _ => parts.push(format!("{v} {} {}", ["=", "!=", ">"][r.upto(3)], r.range(0, 3))),
             }
         }
-        4 => ("definition[d1]: forall X (fresh(X) <-> X = 1).\ndefinition[d2]: forall X (fresh(X) <-> X = 2).".into(), "predicate-taken-by-earlier-entry"),
-        5 => ("definition[d1]: forall X (fresh(X) <-> later(X)).\ndefinition[d2]: forall X (later(X) <-> X = 2).".into(), "body-mentions-later-predicate"),
-        _ => (format!("definition[d]: forall X (fresh(X) -> {some_pred}(X))."), "not-an-equivalence"),
+        if parts.is_empty() { "1 = 1".into() } else { parts.join([" and ", " or "][r.upto(2)]) }
+    };
+    let arity = 1 + r.upto(2);
+    let vars: Vec<&str> = ["X", "Y"][..arity].to_vec();
+    let head_args = vars.join(", ");
+    let quant = vars.join(" ");
+    let good_body = body_over(&vars, r);
+    let defect = r.below(14);
+    match defect {
+        0 => (format!("definition[d]: forall {quant} (fresh({head_args}) <-> {good_body})."), None),
+        1 => (format!("definition(forward)[d]: forall {quant} (fresh({head_args}) <-> {good_body} and exists Z (Z = {})).", vars[0]), None),
+        2 => (format!("definition[d]: forall {quant} (fresh({head_args}) <-> {good_body} and W = W)."), Some("free-variable-in-body")),
+        3 => (format!("definition[d]: forall {quant} {} (fresh({head_args}, {}) <-> {good_body}).", vars[0], vars[0]), Some("repeated-variable")),
+        4 => (format!("definition[d]: forall {quant} (fresh({head_args}, 1) <-> {good_body})."), Some("non-variable-argument")),
+        5 if !taken.is_empty() => {
+            let (p, a) = taken[r.upto(taken.len())].clone();
+            if a == 0 {
+                return (format!("definition[d]: forall X (fresh(X) <-> X = 1 and {p})."), None);
+            }
+            let vs: Vec<String> = (0..a).map(|i| format!("X{i}")).collect();
+            (format!("definition[d]: forall {} ({}({}) <-> {} = 1).", vs.join(" "), p, vs.join(", "), vs[0]), Some("predicate-taken-by-task"))
+        }
+        6 => (format!("definition[d1]: forall X (fresh(X) <-> X = 1).\ndefinition[d2]: forall {quant} (fresh({head_args}) <-> {good_body})."), if arity == 1 { Some("predicate-taken-by-earlier-entry") } else { None }),
+        7 => ("definition[d1]: forall X (fresh(X) <-> later(X)).\ndefinition[d2]: forall X (later(X) <-> X = 2).".into(), Some("body-mentions-later-predicate")),
+        8 => (format!("definition[d]: forall {quant} (fresh({head_args}) -> {good_body})."), Some("not-an-equivalence")),
+        9 => {
+            // a quantified variable that is not an argument of the defined atom but occurs in the body
+            let extra_body = if !binary.is_empty() { format!("{}({}, E)", binary[r.upto(binary.len())].0, vars[0]) } else { format!("{} < E", vars[0]) };
+            (format!("definition[d]: forall {quant} E (fresh({head_args}) <-> {extra_body})."), Some("quantified-variable-missing-from-head"))
+        }
+        10 => {
+            // a head argument that is not quantified (free in the head)
+            (format!("definition[d]: forall {} (fresh({head_args}, F) <-> {good_body}).", quant), Some("head-variable-not-quantified"))
+        }
+        11 => (format!("definition[d]: forall {quant} (fresh({head_args}) <-> {good_body} and undefinedpred({}))).", vars[0]).replace(")))", "))"), Some("body-mentions-undefined-predicate")),
+        12 => (format!("definition[d]: forall {quant} ({good_body} <-> fresh({head_args}))."), Some("defined-atom-on-the-right")),
+        _ => {
+            // same name at another sort in head and quantifier
+            (format!("definition[d]: forall X$i (fresh(X) <-> X$i = 1)."), Some("head-variable-of-another-sort"))
+        }
     }
 }
 
@@ -319,22 +358,27 @@ fn case(cfg: &Config, idx: u64, r: &mut Rng, st: &mut Stats) {
             return;
         }
     };
-    if idx % 5 == 4 {
+    if idx % 4 == 3 {
         // definition acceptance
-        let (po, class) = bad_definition(r, &t0);
+        let (po, defect) = definition_candidate(r, &t0);
         texts.po = po.clone();
         let Ok(t) = make_ctx(texts.clone()) else {
-            st.inc("bad_definition_outline_not_parsed");
+            st.inc("definition_candidate_not_parsed");
             return;
         };
-        st.inc("bad_definition_cases");
-        st.inc(&format!("bad_definition_{class}"));
-        match build_external(&t.parsed, true, flags) {
-            Built::Refused(_) => {
-                st.inc("bad_definitions_refused");
+        st.inc("definition_candidates");
+        match (defect, build_external(&t.parsed, true, flags)) {
+            (None, Built::Ok { .. }) => {
+                st.inc("well_formed_definitions_accepted");
                 st.eval(Some(&format!("{po}|{}", texts.ug)));
             }
-            Built::Ok { problems, .. } => {
+            (None, Built::Refused(_)) => st.inc("well_formed_definitions_refused_for_another_reason"),
+            (Some(class), Built::Refused(_)) => {
+                st.inc("bad_definitions_refused");
+                st.inc(&format!("bad_definition_{class}"));
+                st.eval(Some(&format!("{po}|{}", texts.ug)));
+            }
+            (Some(class), Built::Ok { problems, .. }) => {
                 st.eval(None);
                 st.violation(
                     format!("definition-accepted:{class}"),
@@ -342,7 +386,7 @@ fn case(cfg: &Config, idx: u64, r: &mut Rng, st: &mut Stats) {
                     crate::monitors::c09::origin_ext(&texts, flags),
                 );
             }
-            Built::Panic(p) => st.violation(format!("definition-panic:{class}"), format!("panic: {p}"), crate::monitors::c09::origin_ext(&texts, flags)),
+            (_, Built::Panic(p)) => st.violation("definition-panic", format!("panic: {p}"), crate::monitors::c09::origin_ext(&texts, flags)),
         }
         return;
     }
